@@ -12,14 +12,15 @@ R6  bank-select siblings agree: every function that stores the bank bytes perfor
 from ..core import *
 from ..logic import *
 from .. import e2prog
+from .. import affine
 from ..report import Obl, Rule
 from .. import build
 
 PROP = 'C12'
 RULES = [
-    Rule('C12.R1', 'bank keys are composed / decomposed consistently by loader, bank API and note-on', 6),
+    Rule('C12.R1', 'bank keys are composed / decomposed consistently by loader, bank API and note-on', 5),
     Rule('C12.R2', 'three-step fallback in order, each step only when the previous entry is blank; blank result is rejected before allocation', 4),
-    Rule('C12.R3', 'program / key index into the 128 entries is in range', 3),
+    Rule('C12.R3', 'program / key index into the 128 entries is in range', 1),
     Rule('C12.R4', 'bank API and note-on share one instrument storage; the chip-channel cache is refreshed on patch updates', 3),
     Rule('C12.R5', 'percussion role tests and the GS guard of the XG drum-bank test', 4),
     Rule('C12.R7', 'the bank bytes of a channel stay within 0..127 for every argument value (bit 7 of the MSB is the percussion tag of the bank key, bit 7 of the LSB survives the LSB-cleared fallback)', 2),
@@ -123,12 +124,76 @@ def analyse(facts, tier):
                     if v['n'] == name and 'init' in v:
                         return v['init'], st['loc']
         return None, fn.loc
-    e, loc = decl_init(lb, 'bankno')
-    f = norm_form(linear(e)) if e else None
-    obls.append(Obl('C12.R1', lb.name, 'loader key', loc, 'discharged' if f == want else 'finding', why='bankno = %s' % (f,) if f == want else 'loader composes %s, expected %s' % (f, want)))
-    e, loc = decl_init(gb, 'idnumber')
-    f = norm_form(linear(e)) if e else None
-    obls.append(Obl('C12.R1', gb.name, 'bank API key', loc, 'discharged' if f == want else 'finding', why='idnumber = %s' % (f,) if f == want else 'opn2_getBank composes %s, expected %s' % (f, want)))
+    def composed_key(fn):
+        """{percussive?: normalised affine form} of the bank key a function composes: the integer local that receives the percussion
+        tag, read in front of its first use, for both values of the condition that selects the tag"""
+        key_id, loc_ = None, fn.loc
+        tag_conds = []
+        for x in walk(fn.tree):
+            if not isinstance(x, dict):
+                continue
+            if x.get('k') == 'DeclStmt':
+                for v in x.get('decls', []):
+                    if v.get('init') is not None and any(isinstance(y, dict) and const_of(y) == TAG for y in walk(v['init'])) and (v.get('t') or {}).get('w'):
+                        key_id, loc_ = v['id'], '%s:%s' % (fn.file, x.get('ln'))
+            ap = assign_parts_raw(x)
+            if ap and strip(ap[0]).get('k') == 'DeclRefExpr' and any(isinstance(y, dict) and const_of(y) == TAG for y in walk(ap[1])):
+                key_id = strip(ap[0])['id']
+        if key_id is None:
+            return None, fn.loc, 'no local receives the percussion tag'
+        # the condition under which the tag is added: of the conditional expression / if statement that holds the constant
+        def conds(t, cur):
+            if isinstance(t, list):
+                for y in t:
+                    conds(y, cur)
+            elif isinstance(t, dict):
+                if t.get('k') == 'ConditionalOperator' and any(const_of(t.get(a_)) == TAG for a_ in ('l', 'r')):
+                    tag_conds.append(t['cnd'])
+                if t.get('k') == 'IfStmt' and any(isinstance(y, dict) and const_of(y) == TAG for y in walk(t.get('then'))) and not any(isinstance(y, dict) and y.get('k') == 'IfStmt' for y in walk(t.get('then'))):
+                    tag_conds.append(t['cond'])
+                for k_, v in t.items():
+                    if k_ not in ('t', 'ot') and isinstance(v, (dict, list)):
+                        conds(v, cur)
+        conds(fn.tree, None)
+        if not tag_conds:
+            return None, loc_, 'the percussion tag is added unconditionally'
+        ctext = show(strip(tag_conds[0]))
+        base = strip(tag_conds[0])
+        neg = False
+        while base.get('k') == 'UnaryOperator' and base.get('op') == '!':
+            base, neg = strip(base['e']), not neg
+        if base.get('k') == 'BinaryOperator' and base.get('op') in ('!=', '==') and const_of(base.get('r')) == 0:
+            neg = neg != (base['op'] == '==')
+            base = strip(base['l'])
+        btext = show(base)
+        atoms_ = [('perc', lambda e: True if show(e) == btext else None)]
+        def first_use(t, env, eng):
+            if isinstance(t, dict) and t.get('k') == 'DeclStmt' and any(v['id'] == key_id for v in t.get('decls', [])):
+                return False
+            ap_ = assign_parts_raw(t) if isinstance(t, dict) else None
+            if ap_ and strip(ap_[0]).get('id') == key_id:
+                return False
+            return key_id in env and mentions(t, lambda y: y.get('k') == 'DeclRefExpr' and y.get('id') == key_id)
+        forms_ = {}
+        for val in affine.valuations(['perc']):
+            eng = affine.Affine(fn, atoms_, val)
+            env = eng.run(first_use)
+            f_ = env.get(key_id) if env else None
+            if f_ is not None:
+                d = {}
+                for s_, c_ in f_[0].items():
+                    low = s_.lower()
+                    t_ = 'msb' if 'msb' in low else ('lsb' if 'lsb' in low else s_)
+                    d[t_] = d.get(t_, 0) + c_
+                f_ = (d, f_[1])
+            forms_[val['perc']] = f_
+        return forms_, loc_, None
+    for fn_, label, what in ((lb, 'loader key', 'loader'), (gb, 'bank API key', 'opn2_getBank')):
+        forms_, loc, err = composed_key(fn_)
+        okk = forms_ is not None and forms_.get(False) == ({'msb': 256, 'lsb': 1}, 0) and forms_.get(True) == ({'msb': 256, 'lsb': 1}, TAG)
+        obls.append(Obl('C12.R1', fn_.name, label, loc, 'discharged' if okk else 'finding',
+                        why='msb*256 + lsb, + percussion tag for percussive banks' if okk else
+                        '%s composes %s, expected msb*256 + lsb (+ %d for percussive banks)' % (what, err or forms_, TAG)))
     # range validation in getBank: lsb, msb <= 127, percussive <= 1 before the key is built
     val = []
     for b, j, st in gb.cfg.returns():
@@ -156,38 +221,113 @@ def analyse(facts, tier):
     okd = dec.get('msb') == (8, 127) and dec.get('lsb') == (0, 127) and dec.get('percussive') == (0, TAG)
     obls.append(Obl('C12.R1', gi.name, 'identifier decode is the inverse of the key', gi.loc, 'discharged' if okd else 'finding',
                     why='msb = (key >> 8) & 127, lsb = key & 127, percussive = key & tag' if okd else 'decode does not invert the key: %s' % dec))
-    # note-on: assignments to `bank`
-    forms = []
-    for b, j, st in non.cfg.stmts():
+    # note-on: the key handed to the bank map and the entry index, as affine forms of the channel's bank bytes / program / key, for
+    # every combination of: percussion channel, GS mode, XG mode, MSB == 0x7E, MSB != 0, LSB != 0 (affine propagation with trace
+    # partitioning: however the computation is spread over assignments, `+=` and branches, the value in front of the first look-up
+    # is what counts)
+    Mode_GS, Mode_XG = facts.enums.get('Mode_GS'), facts.enums.get('Mode_XG')
+    if Mode_GS is None or Mode_XG is None:
+        raise build.AnalysisBroken('C12.R1: Mode_GS / Mode_XG not found')
+    perc_id = bank_id = ins_id = None
+    for b, j_, st in non.cfg.stmts():
+        if st['s'].get('k') == 'DeclStmt':
+            for v in st['s']['decls']:
+                if v.get('init') is not None and (v.get('t') or {}).get('bool') and mentions(v['init'], member_named('is_xg_percussion')):
+                    perc_id = v['id']
         for x in walk(st['s']):
-            ap = assign_parts(x)
-            if ap and strip(ap[0]).get('k') == 'DeclRefExpr' and short(strip(ap[0])['n']) == 'bank' and ap[2] in ('=', '+='):
-                gf = guard_facts(non, b, st)
-                forms.append((ap[2], norm_form(linear(ap[1])), ' && '.join(sorted(fact_str(f_) for f_ in gf)), st['loc']))
-    gs = [f_ for f_ in forms if f_[0] == '=' and f_[1] == ({'msb': 256}, 0)]
-    full = [f_ for f_ in forms if f_[0] == '=' and f_[1] == ({'msb': 256, 'lsb': 1}, 0)]
-    tag = [f_ for f_ in forms if f_[0] == '+=' and f_[1] == ({}, TAG) and 'isPercussion' in f_[2]]
-    okm = bool(gs) and bool(full) and 'Mode_GS' in gs[0][2] and '!= 0' in gs[0][2]
-    obls.append(Obl('C12.R1', non.name, 'melodic key at note-on', (full or gs or [(0, 0, 0, non.loc)])[0][3], 'discharged' if okm else 'finding',
-                    why='msb*256 + lsb; in GS mode msb*256' if okm else 'melodic bank key at note-on disagrees with the loader: %s' % [(f_[1], f_[2][:60]) for f_ in forms]))
-    obls.append(Obl('C12.R1', non.name, 'percussion tag at note-on', (tag or [(0, 0, 0, non.loc)])[0][3], 'discharged' if tag else 'finding',
-                    why='bank += PercussionTag under isPercussion' if tag else 'percussion notes do not add the percussion tag'))
-    perc = [f_ for f_ in forms if f_[0] == '=' and f_[1] is not None and 'midiins' in f_[1][0] and 'isPercussion' in f_[2]]
-    oksfx = any(f_[1][0].get('midiins') == 1 and any(c_ == 128 and '126' in s_ for s_, c_ in f_[1][0].items()) and 'Mode_XG' in f_[2] for f_ in perc) and any(f_[1] == ({'midiins': 1}, 0) for f_ in perc)
-    obls.append(Obl('C12.R1', non.name, 'percussion key = program (+128 for XG SFX kits)', (perc or [(0, 0, 0, non.loc)])[0][3], 'discharged' if oksfx else 'finding',
-                    why='bank = midiins + (msb == 0x7E ? 128 : 0) in XG mode, bank = midiins otherwise' if oksfx else 'percussion bank selection differs: %s' % [(f_[1], f_[2][:50]) for f_ in perc]))
-    # the entry is the key number on percussion channels
-    keyent = any(assign_parts(x) and short(strip(assign_parts(x)[0]).get('n', '')) == 'midiins' and short(strip(assign_parts(x)[1]).get('n', '')) == 'note' and 'isPercussion' in ' '.join(fact_str(f_) for f_ in guard_facts(non, b, st))
-                 for b, j, st in non.cfg.stmts() for x in walk(st['s']))
-    obls.append(Obl('C12.R1', non.name, 'percussion entry = key number', non.loc, 'discharged' if keyent else 'finding', why='midiins = note under isPercussion' if keyent else 'the key does not select the percussion entry'))
+            ap = assign_parts_raw(x)
+            if ap and strip(ap[0]).get('k') == 'DeclRefExpr' and any(isinstance(y, dict) and const_of(y) == TAG for y in walk(ap[1])):
+                bank_id = strip(ap[0])['id']
+            if isinstance(x, dict) and x.get('k') == 'ArraySubscriptExpr' and x.get('ext') == 128 and mentions(x['b'], member_named('ins')) and strip(x['i']).get('k') == 'DeclRefExpr':
+                ins_id = strip(x['i'])['id']
+    if ins_id is None:
+        # the entry may be subscripted in a local helper: the index is then the argument bound to the subscripting parameter
+        for b, j_, st in non.cfg.stmts():
+            for x in calls_in(st['s']):
+                for cf in facts.fns.get(callee_name(x), [])[:1]:
+                    if not is_local_helper(non, cf):
+                        continue
+                    pidx = {p_['id']: i_ for i_, p_ in enumerate(cf.params)}
+                    for y in walk(cf.tree):
+                        if isinstance(y, dict) and y.get('k') == 'ArraySubscriptExpr' and y.get('ext') == 128 and mentions(y['b'], member_named('ins')) and strip(y['i']).get('id') in pidx:
+                            a = strip((x.get('a') or [])[pidx[strip(y['i'])['id']]])
+                            if a.get('k') == 'DeclRefExpr':
+                                ins_id = a['id']
+    if None in (perc_id, bank_id, ins_id):
+        raise build.AnalysisBroken('C12.R1: percussion flag / bank key / entry index locals of realTime_NoteOn not found (%s)' % [perc_id, bank_id, ins_id])
+    def mode_atom(flag):
+        def m(e):
+            return True if (e.get('k') == 'BinaryOperator' and e.get('op') == '&' and mentions(e, member_named('m_synthMode')) and any(const_of(y) == flag for y in (e['l'], e['r']))) else None
+        return m
+    def sfx_atom(e):
+        if e.get('k') == 'BinaryOperator' and e.get('op') in ('==', '!=') and mentions(e, member_named('bank_msb')) and 0x7E in (const_of(e['l']), const_of(e['r'])):
+            return e['op'] == '=='
+        return None
+    def member_truth(name):
+        return lambda e: True if (e.get('k') == 'MemberExpr' and short(e['n']) == name) else None
+    atoms = [('perc', lambda e: True if (e.get('k') == 'DeclRefExpr' and e.get('id') == perc_id) else None), ('gs', mode_atom(Mode_GS)), ('xg', mode_atom(Mode_XG)),
+             ('sfx', sfx_atom), ('msbnz', member_truth('bank_msb')), ('lsbnz', member_truth('bank_lsb'))]
+    def stop(t, env, eng):
+        return mentions(t, member_named('m_insBanks'))
+    def zero_out(f, val):
+        if f is None:
+            return None
+        d = {k_: c_ for k_, c_ in f[0].items() if not ((k_ == 'bank_msb' and not val['msbnz']) or (k_ == 'bank_lsb' and not val['lsbnz']))}
+        return (d, f[1])
+    bad_mel = bad_perc = bad_ent = None
+    nval = 0
+    loc_key = non.loc
+    for val in affine.valuations([a[0] for a in atoms]):
+        if val['sfx'] and not val['msbnz']:
+            continue        # MSB == 0x7E is not zero
+        eng = affine.Affine(non, atoms, val)
+        env = eng.run(stop)
+        if env is None:
+            raise build.AnalysisBroken('C12.R1: the first bank look-up of realTime_NoteOn was not reached by the affine propagation')
+        nval += 1
+        got_bank, got_ins = zero_out(env.get(bank_id), val), env.get(ins_id)
+        if val['perc']:
+            want_bank = ({'patch': 1}, TAG + (128 if (val['xg'] and val['sfx']) else 0))
+            want_ins = ({'note': 1}, 0)
+            if got_bank != want_bank and bad_perc is None:
+                bad_perc = 'with %s the key is %s, expected program%s + tag = %s' % (val, got_bank, ' + 128' if want_bank[1] != TAG else '', want_bank)
+            if got_ins != want_ins and bad_ent is None:
+                bad_ent = 'with %s the entry index is %s, expected the key number' % (val, got_ins)
+        else:
+            want_bank = zero_out(({'bank_msb': 256}, 0) if val['gs'] else ({'bank_msb': 256, 'bank_lsb': 1}, 0), val)
+            if got_bank != want_bank and bad_mel is None:
+                bad_mel = 'with %s the key is %s, expected %s' % (val, got_bank, want_bank)
+            if got_ins != ({'patch': 1}, 0) and bad_ent is None:
+                bad_ent = 'with %s the entry index is %s, expected the program number' % (val, got_ins)
+    obls.append(Obl('C12.R1', non.name, 'melodic key at note-on', loc_key, 'discharged' if bad_mel is None else 'finding',
+                    why='msb*256 + lsb; in GS mode msb*256 (%d mode / byte combinations)' % nval if bad_mel is None else 'melodic bank key at note-on disagrees with the loader: ' + bad_mel))
+    obls.append(Obl('C12.R1', non.name, 'percussion key = program (+128 for XG SFX kits) + percussion tag', loc_key, 'discharged' if bad_perc is None else 'finding',
+                    why='program + tag, + 128 in XG mode with MSB 0x7E' if bad_perc is None else 'percussion bank selection differs: ' + bad_perc))
+    obls.append(Obl('C12.R1', non.name, 'entry = program (melodic) / key number (percussion)', loc_key, 'discharged' if bad_ent is None else 'finding',
+                    why='midiins = patch, = note on percussion channels' if bad_ent is None else bad_ent))
 
     # ---- R2 fallback chain
     sd = single_defs(non.d)
     finds = []
+    def lookup_key(x):
+        """the key expression when call x looks a bank up in m_insBanks: directly, or through a local helper that calls find() on the
+        map it receives with one of its parameters as the key"""
+        if short(callee_name(x)) == 'find' and x.get('obj') is not None and mentions(x['obj'], member_named('m_insBanks')):
+            return x['a'][0]
+        for cf in facts.fns.get(callee_name(x), [])[:1]:
+            if not is_local_helper(non, cf) or not any(mentions(a, member_named('m_insBanks')) for a in x.get('a') or []):
+                continue
+            pidx = {p_['id']: i_ for i_, p_ in enumerate(cf.params)}
+            for y in calls_in(cf.tree):
+                if short(callee_name(y)) == 'find' and y.get('a') and strip(y['a'][0]).get('id') in pidx and strip(y.get('obj') or {}).get('id') in pidx:
+                    if mentions(x['a'][pidx[strip(y['obj'])['id']]], member_named('m_insBanks')):
+                        return x['a'][pidx[strip(y['a'][0])['id']]]
+        return None
     for b, j, st in non.cfg.stmts():
         for x in calls_in(st['s']):
-            if short(callee_name(x)) == 'find' and x.get('obj') is not None and mentions(x['obj'], member_named('m_insBanks')):
-                a = subst(x['a'][0], sd)
+            key_e = lookup_key(x)
+            if key_e is not None:
+                a = subst(key_e, sd)
                 gf = guard_facts(non, b, st)
                 finds.append((b, j, st, show(strip(a)), gf))
     if len(finds) != 3:
@@ -226,12 +366,15 @@ def analyse(facts, tier):
     # ---- R3
     res = e2prog.analyse_program(facts)
     n3 = 0
+    # the entry is subscripted in note-on itself or in a local helper that receives the index (the interval engine joins the index
+    # over the helper's call sites)
+    in_scope = {non.name} | {cf.name for b, j, st in non.cfg.stmts() for x in calls_in(st['s']) for cf in facts.fns.get(callee_name(x), [])[:1] if is_local_helper(non, cf)}
     for o in res['obl']:
-        if o.fn == non.name and o.kind == 'index' and o.ext == 128 and 'ins[' in o.construct:
+        if o.fn in in_scope and o.kind == 'index' and o.ext == 128 and 'ins[' in o.construct:
             n3 += 1
-            obls.append(Obl('C12.R3', non.name, o.construct, '%s:%s' % (non.file, o.ln), 'discharged' if o.ok else 'finding',
+            obls.append(Obl('C12.R3', o.fn, o.construct, '%s:%s' % (non.file, o.ln), 'discharged' if o.ok else 'finding',
                             why='index %s within [0,127]' % o.idx if o.ok else 'program/key index %s can leave the 128 entries' % o.idx))
-    if n3 < 3:
+    if n3 < 1:
         raise build.AnalysisBroken('C12.R3: bank entry subscripts not found')
 
     # ---- R4
@@ -259,7 +402,7 @@ def analyse(facts, tier):
                 gf = guard_facts(nu, b, st, loops=False)
                 okp = any(f_[0] == 'truth' and f_[2] and mentions(f_[1], ref_named('Upd_Patch')) for f_ in gf) and len(gf) <= 3
     obls.append(Obl('C12.R4', nu.name, 'setPatch on every Upd_Patch', nu.loc, 'discharged' if okp else 'finding', why='synth.setPatch(c, ins.ains) under props_mask & Upd_Patch' if okp else 'the chip-channel instrument cache is not refreshed on patch updates'))
-    ok_read = any(mentions(st['s'], lambda y: y.get('k') == 'ArraySubscriptExpr' and y.get('ext') == 128 and mentions(y['b'], member_named('ins'))) for b, j, st in non.cfg.stmts())
+    ok_read = any(mentions(s_, lambda y: y.get('k') == 'ArraySubscriptExpr' and y.get('ext') == 128 and mentions(y['b'], member_named('ins'))) for b, j, st, s_, owner, bind in with_helpers(facts, non))
     obls.append(Obl('C12.R4', non.name, 'note-on reads the bank map entries', non.loc, 'discharged' if ok_read else 'finding', why='ains = &bnk->ins[midiins] from synth.m_insBanks.find(..)'))
 
     # ---- R5 / R6
